@@ -54,10 +54,12 @@ Audit extension (same technique: BandLimit.tla first, the harness only drives an
    int64 / strided / read-only arrays, one point of shape (3,), no points, a point array refreshed in place, inputs
    left unmodified; molecular clause against FRESHLY built atomic grids for 2 and 3 atoms in every specified call mode,
    integer values, MolGrid.from_size.
-Calibration of the new clauses (quick tier, seeds 0-5, and thorough; max scaled deviation on the pinned tree):
-  exact clauses m:* 7.1e-15, i:* 1.9e-15 (0 except longdouble), p:* 3.6e-15, a:stacked 3.5e-14, h:*fresh-grids 2.1e-16
-  -> TOL = 1e-9 (>= 4 orders of slack; the 17 new mutants of selftest() give >= 1e-7, almost all O(1));
-  m:axis-rule-vs-finite-differences 2.2e-9 -> TOL_FD_AXIS = 1e-5 (error budget in _mode_clauses; the defect is O(1)).
+Calibration of the new clauses (quick tier seeds 0-5 and thorough tier, 1800 configurations; max scaled deviation on
+the pinned tree): exact clauses m:* 2.6e-14, i:* 6.3e-15 (0 except longdouble), p:* 2.6e-14, a:stacked 1.4e-13,
+  h:*fresh-grids 4.4e-16 -> TOL = 1e-9 (>= 4 orders of slack; the 18 new mutants of selftest() give >= 6e-5, almost
+  all O(1) or an exception); m:axis-rule-vs-finite-differences 2.2e-9 (quick) / 1.1e-9 (thorough) -> TOL_FD_AXIS = 1e-5
+  (error budget in _mode_clauses; the on-axis defect is O(1)).  With the repair proposed in
+  gen/proposals/C09-axis-gradient.diff applied in-process the four known-finding clauses hold at 7e-16 (FD 4e-10).
 """
 from __future__ import annotations
 
